@@ -8,7 +8,7 @@ ANAMES = ["x", "_z", "r#in", "request", "resp", "msg", "req", "service", "the_ct
 ATTRS = ["", '#[doc = "d"]', "#[cfg(all())]", "#[cfg(any())]"]
 DERIVES = ["", "derive = [Clone, Hash]", "derive_serde = false"]
 RETS = ["unit", "u32", "tuple"]
-TYPES = ["u32s", "mixed"]
+TYPES = ["u32s", "mixed", "u8s"]
 
 def camel(s):
     s = s.replace("r#", "")
@@ -21,7 +21,12 @@ def camel(s):
 
 def arg_types(kind, arity):
     if kind == "u32s": return ["u32"] * arity
-    return ["u32", "String", "u8"][:arity]
+    if kind == "u8s": return ["u8"] * arity
+    return [["u32", "String", "u8"][i % 3] for i in range(arity)]
+
+def weights(arity):
+    # distinct weights so that any permutation of the arguments changes the value
+    return [100, 10, 1][:arity] if arity <= 3 else [i + 1 for i in range(arity)]
 
 def arg_value(ty, i):
     v = i + 1
@@ -32,13 +37,13 @@ def arg_as_u32(ty, name):
 
 def expected_value(M, tys):
     # f = M*1000 + a1*100 + a2*10 + a3 with a_i = i+1 (strings: their length = i+1)
-    return M * 1000 + sum((i + 1) * w for i, w in zip(range(len(tys)), [100, 10, 1]))
+    return M * 1000 + sum((i + 1) * w for i, w in zip(range(len(tys)), weights(len(tys))))
 
 class Method:
     def __init__(self, idx, name, arity, tkind, ret, anames, attr):
         self.idx, self.name, self.arity, self.ret, self.attr = idx, name, arity, ret, attr
         self.tys = arg_types(tkind, arity)
-        self.anames = anames[:arity]
+        self.anames = [anames[i % len(anames)] + ("" if i < len(anames) else f"_{i}") for i in range(arity)]
     @property
     def present(self): return self.attr != "#[cfg(any())]"
     def sig_args(self): return ", ".join(f"{n}: {t}" for n, t in zip(self.anames, self.tys))
@@ -53,7 +58,7 @@ def definition(k, nm, arity, tkind, ret, mi, ai, attr, derive):
         # collisions are exercised separately)
         while camel(MNAMES[j % len(MNAMES)]) in used: j += 1
         name = MNAMES[j % len(MNAMES)]; used.add(camel(name)); j += 1
-        an = [ANAMES[(ai + i + t) % len(ANAMES)] for t in range(3)]
+        an = [ANAMES[(ai + i + t) % len(ANAMES)] for t in range(len(ANAMES))]
         methods.append(Method(i + 1, name, max(0, arity - (i % 2 if nm > 1 else 0)), tkind, ret if i == 0 else RETS[(RETS.index(ret) + i) % 3], an,
                               (attr if (i == nm - 1 and not (nm == 1 and attr == "#[cfg(any())]")) else "")))
     return {"k": k, "methods": methods, "derive": derive, "kind": "grid",
@@ -86,7 +91,7 @@ def render(d, svc="Svc"):
         dbg = ", ".join(f"{n}" for n in m.anames)
         fmt = "".join(["|{:?}"] * m.arity)
         L.append(f"            self.0.lock().unwrap().push(format!(\"{m.idx}{fmt}|{{}}\", {dbg + ', ' if dbg else ''}the_context.trace_id()));")
-        val = " + ".join([f"{m.idx * 1000}u32"] + [f"{arg_as_u32(t, n)} * {w}" for n, t, w in zip(m.anames, m.tys, [100, 10, 1])])
+        val = " + ".join([f"{m.idx * 1000}u32"] + [f"{arg_as_u32(t, n)} * {w}" for n, t, w in zip(m.anames, m.tys, weights(m.arity))])
         if m.ret == "u32": L.append(f"            {val}")
         elif m.ret == "tuple": L.append(f"            ({val}, {m.idx}u32)")
         L.append("        }")
@@ -158,7 +163,7 @@ def pairwise(cands, dims):
     return chosen, len(uncovered)
 
 def grid(tier):
-    dims = dict(nm=[1, 2, 3], arity=[0, 1, 2, 3], types=TYPES, ret=RETS,
+    dims = dict(nm=[1, 2, 3], arity=[0, 1, 2, 3, 10, 11, 13], types=TYPES, ret=RETS,
                 mi=list(range(len(MNAMES))), ai=list(range(len(ANAMES))), attr=ATTRS, derive=DERIVES)
     cands = list(itertools.product(*dims.values()))
     if tier == "quick":
